@@ -1,0 +1,47 @@
+//go:build verif
+
+package code
+
+// Contracts for the verification machinery in /verif (see /verif/DESIGN.md).
+// This file contains only comments; it is compiled to nothing.
+
+//@ prop C20
+
+//@ extern go/version.Compare(x string, y string) int
+//@   pure
+//@   ensures result == -1 || result == 0 || result == 1
+//@   ensures x == y ==> result == 0
+
+//@ extern (*go/types.Package).GoVersion() string
+//@   pure
+//@ extern (honnef.co/go/tools/analysis/code.Positioner).Pos() token.Pos
+//@   pure
+//@ extern (*go/token.FileSet).File(p token.Pos) *token.File
+//@   pure
+//@ extern (*go/token.FileSet).PositionFor(p token.Pos, adjusted bool) token.Position
+//@   pure
+
+//@ func File
+//@   requires pass != nil && istype(pass.ResultOf[tokenfile.Analyzer], map[*token.File]*ast.File)
+//@   pure
+//@   reads    analysis.Pass.ResultOf, analysis.Pass.Fset, global.tokenfile.Analyzer
+//@   ensures  result == astype(pass.ResultOf[tokenfile.Analyzer], map[*token.File]*ast.File)[pass.Fset.File(node.Pos())]
+
+// The effective language version of a file: what go/types recorded for it (file tag, else the
+// package's version from the module or the -go flag).
+//@ func LanguageVersion
+//@   requires pass != nil && pass.TypesInfo != nil && istype(pass.ResultOf[tokenfile.Analyzer], map[*token.File]*ast.File)
+//@   pure
+//@   reads    analysis.Pass.ResultOf, analysis.Pass.Fset, analysis.Pass.TypesInfo, types.Info.FileVersions, global.tokenfile.Analyzer
+//@   ensures  result == pass.TypesInfo.FileVersions[File(pass, node)]
+
+// Documented behaviour of StdlibVersion: no file tag => the package (module / -go) version;
+// module older than go1.21 => the file tag; otherwise the larger of file tag and module version.
+//@ func StdlibVersion
+//@   requires pass != nil && pass.Pkg != nil && istype(pass.ResultOf[tokenfile.Analyzer], map[*token.File]*ast.File)
+//@   pure
+//@   reads    analysis.Pass.ResultOf, analysis.Pass.Fset, analysis.Pass.Pkg, ast.File.GoVersion, global.tokenfile.Analyzer
+//@   panics_when File(pass, node) == nil
+//@   ensures  [notag] File(pass, node).GoVersion == "" ==> result == pass.Pkg.GoVersion()
+//@   ensures  [old]   File(pass, node).GoVersion != "" && version.Compare(pass.Pkg.GoVersion(), "go1.21") == -1 ==> result == File(pass, node).GoVersion
+//@   ensures  [new]   File(pass, node).GoVersion != "" && version.Compare(pass.Pkg.GoVersion(), "go1.21") != -1 ==> result == (version.Compare(File(pass, node).GoVersion, pass.Pkg.GoVersion()) == 1 ? File(pass, node).GoVersion : pass.Pkg.GoVersion())
